@@ -43,13 +43,21 @@ const prop = "C06"
 type Part struct {
 	L string `json:"l,omitempty"`
 	X string `json:"x,omitempty"`
+	// O: the path may be absent (a slot prop that is nil / does not resolve for this use, or a name
+	// that is never defined). How an absent name prints is not asserted; all absent reads of one
+	// render must print the same (see undef).
+	O bool `json:"o,omitempty"`
 }
+
+// undef stands, in the expected output, for "whatever an undefined name prints".
+const undef = "\x01UNDEF\x01"
 
 // KV is an attribute: for elements `:data-K="V"` (V a path), for slots the bound prop `:K="V"`,
 // for includes a bound (`:K="V"`) or static (`K="V"`) prop.
 type KV struct {
 	K string `json:"k"`
 	V string `json:"v"`
+	O bool   `json:"o,omitempty"` // slot prop: the path may not resolve / be nil -> the prop is absent for this use
 }
 
 // For is `v-for="(Idx, Item) in List"` (Idx may be empty: `Item in List`).
@@ -212,12 +220,25 @@ func check(c Case) error {
 		return fmt.Errorf("output contains an element that is in none of the templates' marked elements: %s\noutput: %s\n%s", un[0].Brief(), got, describe(c))
 	}
 	go_, wo := observe(gl), observe(want)
+	undefAt, undefText := -1, ""
 	for i := 0; i < len(go_) || i < len(wo); i++ {
 		switch {
 		case i >= len(go_):
 			return fmt.Errorf("marker #%d: expected %v, output ends\nwant outline %s\ngot  outline %s\noutput: %s\n%s", i, wo[i], hx.Outline(want), hx.Outline(gl), got, describe(c))
 		case i >= len(wo):
 			return fmt.Errorf("marker #%d: unexpected extra %v\nwant outline %s\ngot  outline %s\noutput: %s\n%s", i, go_[i], hx.Outline(want), hx.Outline(gl), got, describe(c))
+		case strings.Contains(wo[i].Text, undef):
+			// An absent slot prop must print like a never-defined name. Every such read (the absent
+			// props and the never-defined control next to each of them) has a marker of its own.
+			if go_[i].ID != wo[i].ID || go_[i].Attrs != wo[i].Attrs {
+				return fmt.Errorf("marker #%d: got %v want %v\nwant outline %s\ngot  outline %s\noutput: %s\n%s", i, go_[i], wo[i], hx.Outline(want), hx.Outline(gl), got, describe(c))
+			}
+			if undefAt < 0 {
+				undefAt, undefText = i, go_[i].Text
+			} else if go_[i].Text != undefText {
+				return fmt.Errorf("marker #%d %s prints %q and marker #%d %s prints %q, but both read a name that is absent in their scope (a slot prop that is nil / unresolved for this use, or a never-defined control name): a value from another use of the slot leaked\noutput: %s\n%s",
+					undefAt, go_[undefAt].ID, undefText, i, go_[i].ID, go_[i].Text, got, describe(c))
+			}
 		case go_[i] != wo[i]:
 			return fmt.Errorf("marker #%d: got %v want %v\nwant outline %s\ngot  outline %s\noutput: %s\n%s", i, go_[i], wo[i], hx.Outline(want), hx.Outline(gl), got, describe(c))
 		}
